@@ -160,15 +160,24 @@ def esafe(f):
         return ["("] + f + [")"]
     return f
 
+# text the grammar's S (and pest's implicit skipping) allows between two tokens: comments end at the line break
+GAPS = [" ; the shared header\n  ", "\n  ", " ; zz = int\n", " ;\n", "\t; ~ hdr & colours <zz>\n\t", " ; café\n ", " ; a\n ; b\n  "]
+
 class Gen:
-    def __init__(self, rng, rule_names, undef_pool, shadow_pool, p_undef):
+    def __init__(self, rng, rule_names, undef_pool, shadow_pool, p_undef, p_gap=0.0):
         self.rng = rng
+        self.p_gap = p_gap                   # probability of a comment / line break at each position where S is allowed
         self.rule_names = rule_names         # printed names of the document's rules
         self.undef_pool = undef_pool
         self.shadow_pool = shadow_pool       # identifiers defined only under a socket prefix
         self.p_undef = p_undef
         self.params = []
         self.other_params = []
+
+    def gap(self, default):
+        if self.p_gap and self.rng.random() < self.p_gap:
+            return self.rng.choice(GAPS)
+        return default
 
     # ---- names ----
     def pick(self, site):
@@ -198,18 +207,18 @@ class Gen:
 
     def generic_args(self, d):
         n = self.rng.choice([1, 1, 2])
-        out = ["<"]
+        out = [self.gap(""), "<", self.gap("")]          # between the name and "<", and after "<"
         for k in range(n):
             if k:
-                out.append(", ")
+                out += [self.gap(""), ",", self.gap(" ")]
             f, _ = self.type1(d, "generic_arg")
             out += f
-        out.append(">")
+        out += [self.gap(""), ">"]
         return out
 
     def named(self, site, d):
         f = [self.pick(site)]
-        if d > 0 and self.rng.random() < 0.15:
+        if d > 0 and self.rng.random() < (0.3 if self.p_gap else 0.15):
             f += self.generic_args(d - 1)
         return f
 
@@ -232,11 +241,11 @@ class Gen:
         if k == "arr":
             return ["["] + self.group(d - 1, False) + ["]"], 2
         if k == "unwrap":
-            return [rng.choice(["~", "~ "])] + self.named("unwrap", d), 2
+            return ["~", self.gap(rng.choice(["", " "]))] + self.named("unwrap", d), 2
         if k == "enumname":
             if rng.random() < 0.2:
-                return ["&", Ref("$$", rng.choice(SOCKET_IDS), "enum_socket")], 2
-            return [rng.choice(["&", "& "])] + self.named("enum_name", d), 2
+                return ["&", self.gap(""), Ref("$$", rng.choice(SOCKET_IDS), "enum_socket")], 2
+            return ["&", self.gap(rng.choice(["", " "]))] + self.named("enum_name", d), 2
         if k == "enumgroup":
             return ["&("] + self.group(d - 1, True) + [")"], 2
         if k == "tag":
@@ -271,10 +280,12 @@ class Gen:
             lo, hi = self.bound("range_lo"), self.bound("range_hi")
             if isinstance(lo[0], Ref) and op in ("..", "..."):
                 op = " " + op                      # `b..c` would otherwise be lexed differently (C03)
+            if self.p_gap:
+                op = self.gap(" ") + op.strip() + self.gap(" ")
             return lo + [op] + hi, 1
         tgt = self.as2(self.type2(d, "ctl_target"))
         arg = self.as2(self.type2(d - 1 if d > 0 else 0, "ctl_arg"))
-        return tgt + [" ." + rng.choice(CTL_OPS) + " "] + arg, 1
+        return tgt + [self.gap(" "), "." + rng.choice(CTL_OPS), self.gap(" ")] + arg, 1
 
     def type(self, d, site):
         rng = self.rng
@@ -317,6 +328,8 @@ class Gen:
     def entry(self, d, in_map):
         rng = self.rng
         occ = rng.choice(OCCS) if rng.random() < 0.35 else ""
+        if occ and self.p_gap:
+            occ = occ.strip() + self.gap(" ")            # after an occurrence indicator
         opts = ["bare"] * 4 + ["bareword"] * 2 + ["valuekey", "arrow", "arrow", "gsocket"]
         if in_map:
             opts += ["bareword", "arrow"]
@@ -329,13 +342,14 @@ class Gen:
             return [occ] + esafe(f)
         if k == "bareword":
             f, _ = self.type(d, site_v)
-            return [occ, rng.choice(BAREWORDS), rng.choice([": ", ":", " : "])] + f
+            return [occ, rng.choice(BAREWORDS), self.gap(rng.choice(["", "", " "])), ":", self.gap(rng.choice([" ", ""]))] + f
         if k == "valuekey":
             f, _ = self.type(d, site_v)
             return [occ, rng.choice(["\"k\"", "1", "\"zz\"", "-1"]), rng.choice([": ", " => ", " ^ => "])] + f
         if k == "arrow":
             f, _ = self.type(d, site_v)
-            return [occ] + self.key1(d) + [rng.choice([" => ", " ^ => ", " =>", "=> "])] + f
+            cut = [self.gap(" "), "^"] if rng.random() < 0.3 else []
+            return [occ] + self.key1(d) + cut + [self.gap(rng.choice([" ", ""])), "=>", self.gap(rng.choice([" ", ""]))] + f
         if k == "gsocket":
             out = [occ, Ref("$$", rng.choice(SOCKET_IDS), "group_socket")]
             if d > 0 and rng.random() < 0.3:
@@ -347,7 +361,7 @@ class Gen:
         out = [occ, Ref("$", rng.choice(SOCKET_IDS), "key_socket_colon")]
         if rng.random() < 0.5:
             out += self.generic_args(d - 1)
-        return out + [": "] + f
+        return out + [self.gap(""), ":", self.gap(" ")] + f
 
     # ---- rule bodies ----
     def type_body(self, d):
@@ -416,7 +430,7 @@ def random_doc(rng, p_undef=None):
     shadow = sorted(i for i in ids_sock if i not in ids_plain and i not in RFC_PRELUDE)
     if p_undef is None:
         p_undef = rng.choice([0.0, 0.0, 0.02, 0.05, 0.1, 0.3])
-    g = Gen(rng, [h[0] for h in heads], undef, shadow, p_undef)
+    g = Gen(rng, [h[0] for h in heads], undef, shadow, p_undef, p_gap=rng.choice([0.0, 0.0, 0.0, 0.05, 0.15, 0.4]))
     rules = []
     all_params = sorted({p for h in heads for p in h[3]})
     for name, op, kind, params in heads:
@@ -492,6 +506,26 @@ TYPE_CTX = [
     ("ctl_arg_ne", lambda f, l: (["int .ne "] + _p(f, l, 2), 1)),
     ("ctl_arg_bits", lambda f, l: (["uint .bits "] + _p(f, l, 2), 1)),
     ("ctl_arg_in_paren", lambda f, l: (["uint .size ("] + f + [")"], 1)),
+    # comments / line breaks around the hole
+    ("c_array_occ", lambda f, l: (["[* ; any number\n  "] + esafe(f) + [" ; end\n]"], 2)),
+    ("c_array_occ_range", lambda f, l: (["[2*3 ; some\n "] + esafe(f) + ["]"], 2)),
+    ("c_map_value_bareword", lambda f, l: (["{k ; key\n : ; value\n  "] + f + ["}"], 2)),
+    ("c_map_value_arrow", lambda f, l: (["{\"k\" ; key\n => ; value\n  "] + f + ["}"], 2)),
+    ("c_map_key_arrow", lambda f, l: (["{ ; key\n  "] + esafe(_p(f, l, 1)) + [" ; arrow\n => ; value\n int}"], 2)),
+    ("c_map_key_cut", lambda f, l: (["{"] + esafe(_p(f, l, 1)) + [" ; cut\n ^ ; arrow\n => int}"], 2)),
+    ("c_generic_arg_first", lambda f, l: ([Ref("", "pair", "helper"), " ; open\n < ; arg\n "] + _p(f, l, 1) + [" ; sep\n , int>"], 2)),
+    ("c_generic_arg_second", lambda f, l: ([Ref("", "pair", "helper"), "<int, ; second\n "] + _p(f, l, 1) + [" ; close\n >"], 2)),
+    ("c_generic_arg_unwrap", lambda f, l: (["~ ; unwrap\n ", Ref("", "pair", "helper"), " ; open\n <"] + _p(f, l, 1) + [", int>"], 2)),
+    ("c_generic_arg_enum", lambda f, l: (["& ; enum\n ", Ref("", "pair", "helper"), "<"] + _p(f, l, 1) + [" ; sep\n , int>"], 2)),
+    ("c_range_hi", lambda f, l: (["0 ; lo\n .. ; hi\n "] + _p(f, l, 2), 1)),
+    ("c_range_lo", lambda f, l: (_p(f, l, 2) + [" ; lo\n .. 5"], 1)),
+    ("c_ctl_arg", lambda f, l: (["uint ; target\n .size ; argument\n "] + _p(f, l, 2), 1)),
+    ("c_ctl_target", lambda f, l: (_p(f, l, 2) + [" ; target\n .size 3"], 1)),
+    ("c_tag_content", lambda f, l: (["#6.32( ; content\n "] + f + [" ; end\n )"], 2)),
+    ("c_tag_number_type", lambda f, l: (["#6.< ; tag type\n "] + f + [" ; end\n >"], 2)),
+    ("c_choice", lambda f, l: (["int ; first\n / ; second\n "] + _p(f, l, 1), 0)),
+    ("c_paren", lambda f, l: (["( ; open\n "] + f + [" ; close\n )"], 2)),
+    ("c_enum_group_value", lambda f, l: (["& ; enum\n ( ; open\n k: "] + f + [")"], 2)),
 ]
 
 # sites with a name hole
@@ -502,6 +536,15 @@ NAME_SITES = [
     ("enum_name", lambda r: (["&", r], 2)),
     ("enum_name_generic", lambda r: (["& ", r, "<int>"], 2)),
     ("generic_head", lambda r: ([r, "<int, tstr>"], 2)),
+    # the same sites with a comment / a line break wherever S is allowed around the name
+    ("unwrap_comment", lambda r: (["~ ; the shared header\n  ", r], 2)),
+    ("unwrap_newline", lambda r: (["~\n  ", r], 2)),
+    ("unwrap_generic_comment", lambda r: (["~ ; c\n ", r, " ; args\n  <int>"], 2)),
+    ("enum_name_comment", lambda r: (["& ; enumerate\n  ", r], 2)),
+    ("enum_name_newline", lambda r: (["&\n\t", r], 2)),
+    ("enum_name_generic_comment", lambda r: (["&; c\n", r, "; d\n<; e\n int ; f\n>"], 2)),
+    ("generic_head_comment", lambda r: ([r, " ; args\n  < ; first\n int ; sep\n , ; second\n tstr ; end\n >"], 2)),
+    ("plain_comment_after", lambda r: ([r, " ; trailing\n  "], 2)),
 ]
 
 # rule-level contexts: (label, op, params, builder(fragment, level) -> body)
@@ -552,9 +595,10 @@ def catalogue(rng, n_deep):
                     filler = "$$zz"
                 cases.append(plant_case(ns, chain, rc, [filler], "plant-resolved", where))
     # all ordered pairs of contexts for the plain name site (depth 2), type rule
-    for c1 in TYPE_CTX:
-        for c2 in TYPE_CTX:
-            cases.append(plant_case(NAME_SITES[0], [c1, c2], RULE_CTX[0], ["zz"], "plant-undef-depth2"))
+    for k1, c1 in enumerate(TYPE_CTX):
+        for k2, c2 in enumerate(TYPE_CTX):
+            ns = NAME_SITES[0] if not (c1[0].startswith("c_") or c2[0].startswith("c_")) else NAME_SITES[6 + (k1 + k2) % 8]
+            cases.append(plant_case(ns, [c1, c2], RULE_CTX[0], ["zz"], "plant-undef-depth2"))
     # random deeper chains (depth 3-4), two planted names: the first in source order must be reported
     for _ in range(n_deep):
         chain = [rng.choice(TYPE_CTX) for _ in range(rng.choice([3, 3, 4]))]
@@ -668,6 +712,15 @@ def near_misses():
         ("bareword-key-is-not-a-reference", [R("a", "=", B("{zz: `int`, yy : `tstr`, ? ww: `bool`}"))]),
         ("arrow-key-is-a-reference", [R("a", "=", B("{`zz` => `int`}"))]),
         ("text-and-comment-are-not-references", [R("a", "=", B("\"zz\" / 'yy' ; ww\n / `int`"))]),
+        ("comment-between-unwrap-and-name", [R("a", "=", B("~ ; the shared header\n  `hdr`"))]),
+        ("comment-between-enum-and-name", [R("a", "=", B("& ; enumerate\n  `colours`"))]),
+        ("comment-between-unwrap-and-defined-name", [R("a", "=", B("~ ; the shared header\n  `hdr`")), R("hdr", "=", B("{k: `int`}"))]),
+        ("comment-between-enum-and-name-in-array", [R("a", "=", B("[`int`, & ; enumerate\n  `colours`<`int`>]"))]),
+        ("comment-between-unwrap-and-name-ctl-arg", [R("a", "=", B("`bstr` .cbor ~ ; c\n `hdr`"))]),
+        ("comment-between-name-and-generic-args", [R("a", "=", B("`int` / `p` ; args\n  <`zz`>")), R("p", "=", B("`t`"), ["t"])]),
+        ("comment-inside-generic-args", [R("a", "=", B("`p`< ; first\n `int` ; sep\n , `zz` ; end\n >")), R("p", "=", B("[`t`, `u`]"), ["t", "u"])]),
+        ("comment-around-arrow-and-colon", [R("a", "=", B("{`kk` ; key\n ^ ; cut\n => ; value\n `int`, k ; c\n : ; d\n `vv`}"))]),
+        ("comment-after-occurrence", [R("a", "=", B("[* ; many\n `zz`, ? ; maybe\n `int`]"))]),
         ("first-in-source-order", [R("a", "=", B("[`zz2`, `zz1`]")), R("b", "=", B("`zz0`"))]),
         ("first-in-source-order-later-rule", [R("a", "=", B("[`int`]")), R("b", "=", B("{k: `yy`, `xx` => `int`}"))]),
         ("dup-before-undefined", [R("a", "=", B("`zz`")), R("a", "=", B("`int`"))]),
